@@ -5,7 +5,7 @@ from props.common import is_plain_write, arg_syms, atomic_ops, bool_switches, ca
 KEEP = [  # private helpers the rules name (kept as functions); every other non-exported, non-trait function is spliced into its callers
     "AtomicCounter::flush", "AtomicCounter::new", "AtomicGauge::flush", "AtomicGauge::new",
     "AtomicHistogram::flush", "AtomicHistogram::new", "AtomicHistogram::record", "Block::data",
-    "Block::new", "Block::push", "Client::send", "ClientSideAggregatedStorage::new",
+    "Block::new", "Block::push", "Client::send", "ClientState::try_send", "ClientSideAggregatedStorage::new",
     "CompositeKeyName::new", "DogStatsDRecorder::new", "Forwarder::new", "Forwarder::run",
     "ForwarderConfiguration::is_length_prefixed", "Generational::new", "Inner::new", "MetricKindMask::value",
     "PayloadWriter::new", "PayloadWriter::write_counter", "PayloadWriter::write_distribution", "PayloadWriter::write_gauge",
@@ -425,8 +425,36 @@ def run(ctx):
     _imports(ctx)
 
 
+def _forwarder_rules(ctx):
+    """Stream framing survives a failed send: the connection is kept only where send() returned Ok — after any error (a
+    timed-out write may have written part of a length-prefixed frame) the next payload goes out on a fresh connection."""
+    from props.common import result_flow
+
+    chk = ctx.check
+    d = ctx.crate("metrics_exporter_dogstatsd")
+    if d is None:
+        return
+    ts = [f for f in d.fns if f.name == "try_send" and "forwarder::sync::ClientState" in f.j.get("impl_self", "")]
+    if len(ts) != 1:
+        chk.unrecognised("C10.d", "<anchor> forwarder::sync::ClientState::try_send", f"found {len(ts)}")
+        return
+    f = ts[0]
+    b = f.body
+    sends = [c for c in nonforeign_calls(f) if c.fn is f and c.is_("Client::send")]
+    if len(sends) != 1:
+        chk.unrecognised("C10.d", f"{f.path} [connection kept only after a successful send]", f"expected one Client::send, found {len(sends)}", f.loc())
+        return
+    pf = result_flow(f, "Client::send")
+    after = b.reachable_after(sends[0].bb)
+    kept = [(i, st) for i, k, st in b.stmts() if i in after and st["k"] == "assign" and st["rv"]["k"] == "agg" and st["rv"].get("variant") == "Ready" and (st["rv"].get("adt") or "").endswith("ClientState")]
+    bad = [(i, st) for i, st in kept if pf.at(i) != "P"]
+    chk.ob("C10.d", f"{f.path} [connection kept only after a successful send]", bool(kept) and not bad, f"{len(kept)} site(s) re-establish Ready after the send, each on its Ok edge" if kept and not bad else "the connection is kept (state Ready) on a path where send() did not return Ok: after a partial write on the stream transport the next frame is appended behind a truncated one and the agent stays misaligned", f"{f.file}:{bad[0][1].get('ln')}" if bad else f.loc(), nontrivial=False)
+
+
 def _imports(ctx):
     from props.common import import_rules
+
+    _forwarder_rules(ctx)
 
     import_rules(ctx, "C05", {"C05.b", "C05.c", "C05.d", "C05.e"}, "C10.g", "imported from C05 (AtomicBucket<f64> is the storage of an unsampled histogram, drained by each flush): a detached block is read only after its in-flight writers have published, blocks are linked before they are published, every slot is claimed once — otherwise a value recorded while a flush runs is sent in no flush or in two", floor=6)
     import_rules(ctx, "C06", {"C06.b", "C06.c", "C06.e"}, "C10.h", "imported from C06 (the registry the recorder registers into and every flush lists): one hash/shard/key per lookup, check-and-insert in one critical section with entry-API-only insertion — otherwise a racing first registration replaces the counter another thread already holds, and its increments are never flushed", floor=12)
